@@ -220,6 +220,7 @@ Qed.
 
 (* create_file(path, flags, mode): openat(parent object, name, flags|O_CREAT|O_NOFOLLOW|..., mode & 07777) *)
 Theorem create_file_reaches t root path dirp name o flags mode :
+  has flags O_PATH = false ->
   path_split path = Some (Ok (dirp, Some name)) -> has_nul dirp = false -> has_nul name = false ->
   Frame s F t -> tget t root = Some ROOT ->
   FSModel.ewalk s dirp false nosym = FSModel.WOk o ->
@@ -228,13 +229,13 @@ Theorem create_file_reaches t root path dirp name o flags mode :
             (Openat dir name (N.lor (N.lor (N.lor (N.lor flags CREATE_FILE_FORCED) OPENAT_NOFOLLOW_FORCED) OPENAT_FORCED) O_LARGEFILE)
                     (N.land mode MODE_BITS)) t1.
 Proof.
-  intros Hsplit Hnul Hnn Hfr Hroot Hw.
+  intros Hop Hsplit Hnul Hnn Hfr Hroot Hw.
   destruct (reaches_after_parent
               (fun dn => let '(dir, name) := dn in
                          r <- os (w_openat fz dir name (N.lor flags CREATE_FILE_FORCED) mode) ;; close dir ;;; Ret r)
               t root path dirp name o Hsplit Hnul Hfr Hroot Hw) as (t1 & dir & Hdir & Hr).
   exists t1, dir. split; [exact Hdir|].
-  unfold root_create_file. apply Hr. cbn beta iota.
+  unfold root_create_file. rewrite Hop, andb_false_r. apply Hr. cbn beta iota.
   apply reaches_bind_here. unfold os, map_err. apply reaches_bind_here.
   unfold w_openat, w_openat_follow, rustix_path. rewrite (tget_valid _ _ _ Hdir), Hnn. cbn [negb]. apply reach_here.
 Qed.
